@@ -108,6 +108,32 @@ CLAIMED = {
                 "keyed in known_findings.json. No axioms.",
         "technique": "Coq proof over source-regenerated rules + extracted-model differential const matrix",
     },
+    "C09": {
+        "category": "proof",
+        "text": "Coq theorems (Properties_C09.v: C09_shape, C09_shape_every_node, C09_persistence, C09_scoped_leaves_nothing, C09_call_leaves_nothing) over the evaluator model "
+                "(Eval.v: every node's semantics is a program over 18 primitive effects and the combinators Handle/Scoped/Framed/InCall/Loop/Ev): for every tree, state, fuel and outcome "
+                "(value, return, break/continue, script throw, any C++ exception incl. injected callback faults, eval_error) the stack shape (scopes per frame, saved-parameter lists, "
+                "call depth) is restored, existing bindings are kept in place, only the innermost scope may gain bindings, and nothing declared inside a scoped construct or a call "
+                "survives it — proved once by induction on programs (EvalMeta.v). Tie + oracle: fault enumeration on the real engine (each callback invocation x 5 exception kinds) "
+                "with the CHAISCRIPT_VERIF shape hook, probe script and locals, compared fault by fault with the extracted model.",
+        "design_ref": "DESIGN.md §6 C09",
+        "note": "Theorems are about the model; the implementation is tied by differential fault enumeration on the modelled subset. Conversion_Saves is not in the model: that component of "
+                "the shape is judged on the implementation only. Trusted: Coq kernel, tree dump/reader, generator, hooks H2. No axioms.",
+        "technique": "Coq proof by induction over effect programs + differential fault enumeration with a shape hook",
+    },
+    "C10": {
+        "category": "proof",
+        "text": "Coq theorems (Properties_C10.v): C10_try_refines_spec — the evaluator model's Try node (port of the repaired Try_AST_Node) satisfies the inference-rule specification "
+                "TrySpec for every sub-term evaluator, tree and state (first accepting clause wins and later ones are not looked at, at most one catch block runs, an exception no "
+                "clause accepts continues as the same exception, finally runs exactly once on every path incl. return/break/continue and throwing catch blocks, non-std C++ exceptions "
+                "are seen by no clause); brackets (call frames, scopes) intercept nothing; sequencing stops at the throw point. Tie + oracle: 900 (quick) / 12k (thorough) generated "
+                "nests x thrown kinds x frames x callback faults; the oracle is the extracted reference evaluator.",
+        "design_ref": "DESIGN.md §6 C10",
+        "note": "Clause acceptance for C++ exception classes follows a hand-written base-class table (exception, runtime_error, logic_error, out_of_range, eval_error, arithmetic_error) "
+                "validated by the correspondence. bind(), for_each/map callbacks, Dynamic_Object payloads and exception_specification at the C++ boundary are outside the modelled "
+                "subset. No axioms.",
+        "technique": "Coq refinement proof of the Try node against an inference-rule specification + extracted-model differential testing",
+    },
 }
 PENDING_REASON = "check not built yet in this round (work in progress; see DESIGN.md §6 for the planned Coq model and tie)"
 ALL = ["C%02d" % i for i in range(1, 21)]
